@@ -190,8 +190,9 @@ def u_container_fields(root):
     mk(eng, "HistContainer", "underflow", "getter", result=lambda vw: VNum(under))
     mk(eng, "HistContainer", "overflow", "getter", result=lambda vw: VNum(over))
     for cls, manual in (("IndexedContainer", None), ("UnbinnedContainer", None), ("XYContainer", None), ("HistContainer", False), ("HistContainer", True)):
-        for labelled in (False, True):
-            lab = (VStr("the label"), VStr("x label"), VStr("y label")) if labelled else (VNone(), VNone(), VNone())
+        for labelled in (False, True, "axes-only", "label-only", "x-only"):          # each label is stored on its own account
+            lab = {False: (VNone(), VNone(), VNone()), True: (VStr("the label"), VStr("x label"), VStr("y label")), "axes-only": (VNone(), VStr("x label"), VStr("y label")),
+                   "label-only": (VStr("the label"), VNone(), VNone()), "x-only": (VNone(), VStr("x label"), VNone())}[labelled]
             for c_ in (cls, "DataContainerBase"):
                 mk(eng, c_, "label", "getter", result=lambda vw, lab=lab: lab[0])
                 mk(eng, c_, "axis_labels", "getter", result=lambda vw, lab=lab: VTuple([lab[1], lab[2]]))
@@ -200,7 +201,7 @@ def u_container_fields(root):
             c = Contract("DataContainerYamlWriter", "_make_representation")
             c.requires.append(lambda vw, manual=manual: (vw.eng.read_field(vw.pre, VRef(z3.Const("container", Ref), "HistContainer"), "_manual_heights").e == bool(manual)) if manual is not None else z3.BoolVal(True))
             c.ensures.append(lambda vw: (got.__setitem__("doc", vw.result), [("a plain dict", z3.BoolVal(isinstance(vw.result, VDict)))])[1])
-            tag = f"[{cls}{'' if manual is None else (',bin heights set by hand' if manual else ',filled from entries')}{',labels' if labelled else ''}]"
+            tag = f"[{cls}{'' if manual is None else (',bin heights set by hand' if manual else ',filled from entries')}{',labels: ' + str(labelled) if labelled else ''}]"
             eng.verify("DataContainerYamlWriter", "_make_representation", None, lambda e, st, me_, cls=cls: {"cls": VLib("class:DataContainerYamlWriter"), "container": VRef(z3.Const("container", Ref), cls)}, contract=c, tag=tag)
             c = Contract("DataContainerYamlReader", "_convert_yaml_doc_to_object")
             c.requires.append(lambda vw: z3.And(n >= 1, nb >= 2, raw.len >= 0))
